@@ -27,7 +27,7 @@ int open_read(char *f)
 }
 int fstat(int fd, struct stat *st) { if (ND_BOOL()) return -1; g_fstat_ok = 1; st->st_mode = (mode_t)ND_UINT(); st->st_uid = (uid_t)ND_UINT(); g_mode_ok = (st->st_mode & S_IFMT) == S_IFREG; g_uid_ok = st->st_uid == auto_uidq; return 0; }
 int pipe(int p[2]) { if (ND_BOOL()) return -1; p[0] = 8; p[1] = 9; return 0; }
-int coe(int fd) { return 0; } int close(int fd) { return 0; }
+int g_closed9; int coe(int fd) { return 0; } int close(int fd) { if (fd == 9) g_closed9 = 1; return 0; }
 int spawn(int fdmess, int fdout, char *s, char *r, int at)
 {
   V_ASSERT(g_opened && g_fstat_ok && g_mode_ok && g_uid_ok, "C18: a delivery is started only for a regular file owned by the queue user");
@@ -43,10 +43,11 @@ void harness(void)
   __CPROVER_havoc_object(mid);
   messid.s = mid; messid.a = MB; messid.len = ND_UINT() % MB; sender.s = "s"; sender.len = 2; recip.s = rcp; recip.len = ND_UINT() % 16;
   delnum = ND_INT(); V_ASSUME(0 <= delnum && delnum <= 255); flagabort = ND_BOOL();
-  g_K = ND_INT(); g_nerr = g_spawned = g_opened = g_mode_ok = g_uid_ok = g_fstat_ok = g_errbyte = 0;
+  g_K = ND_INT(); g_nerr = g_spawned = g_opened = g_mode_ok = g_uid_ok = g_fstat_ok = g_errbyte = g_closed9 = 0;
   docmd();
   V_ASSERT(g_nerr + g_spawned == 1, "C18: every well-formed delivery command is answered with exactly one report or starts exactly one delivery (whose report follows when it ends)");
   for (k = 0; k < NSL + 10; ++k) if ((int)k != delnum || !g_spawned) V_ASSERT(dels[k].used == used0[k], "C18: a command changes only its own delivery slot, and only when a delivery was started");
   if (g_spawned) V_ASSERT(dels[delnum].used == 1 && dels[delnum].pid == 1234, "C18: supporting: the slot records the started delivery");
+  if (g_spawned) V_ASSERT(dels[delnum].fdin == 8 && dels[delnum].fdout == 9 && !g_closed9, "C04,C18: the spawner keeps its own copy of the delivery's output pipe open (end-of-file, and with it the report and the freeing of the slot, is delayed until the child was reaped)");
   V_COVER(g_spawned); V_COVER(g_nerr && g_opened);
 }
